@@ -247,9 +247,11 @@ def origin(f, operand, max_steps=60):
         fields = [e for e in p["proj"] if e["k"] == "field"]
         if fields and not (f.locals[l]["ty"]["k"] == "tuple"):
             return ("field", l, fields[0].get("name"))
-        if 1 <= l <= f.arg_count and not f.defs_of(l):
+        whole = [d for d in f.defs_of(l) if not f.blocks[d[0]]["cleanup"] and
+                 ((d[1] == "term" and not d[2]["dest"]["proj"]) or (d[1] != "term" and not d[2]["place"]["proj"]))]
+        if 1 <= l <= f.arg_count and not whole:
             return ("arg", l)
-        ds = [d for d in f.defs_of(l) if not f.blocks[d[0]]["cleanup"]]
+        ds = whole
         if len(ds) != 1:
             return ("local", l)
         b, i, d = ds[0]
